@@ -160,10 +160,20 @@ def str_method(P, s, name, args, kwargs):
             return [s]
         # general split: a list of unknown length >= 1
         if not P.branch(z3.Contains(z, zsep)):
+            if maxsplit < 0 and name == "split":
+                tag = "".join(f"{ord(c):02x}" for c in sep)
+                P.assume(z3.And(ufn("split_n_" + tag, StrS, IntS)(z) == 1, ufn("split_at_" + tag, StrS, IntS, StrS)(z, z3.IntVal(0)) == z))
             return [s]
-        n = P.fresh_int("split_n")
+        if maxsplit < 0 and name == "split":
+            # canonical: the result is a function of the string (two calls on equal strings give equal lists)
+            tag = "".join(f"{ord(c):02x}" for c in sep)
+            n = SInt(ufn("split_n_" + tag, StrS, IntS)(z))
+            f0 = ufn("split_at_" + tag, StrS, IntS, StrS)
+            f = lambda i, f0=f0, z=z: f0(z, i)  # noqa: E731
+        else:
+            n = P.fresh_int("split_n")
+            f = P.fresh_fn("split_part", IntS, StrS)
         P.assume(n.z >= 1)
-        f = P.fresh_fn("split_part", IntS, StrS)
         P.assume(z3.Implies(z3.Not(z3.Contains(z, zsep)), z3.And(n.z == 1, f(0) == z)))
         if maxsplit >= 0:
             P.assume(n.z <= maxsplit + 1)
